@@ -52,6 +52,23 @@ def sessions(rng, quick):
     for _ in range(60 if quick else 5000):
         n = rng.randrange(4, 8)
         out.append((disk0, [rng.choice(atoms) for _ in range(n)]))
+    # include cycles through the touched document (self-include, a <-> b, a -> b -> c -> a), on disk from the start or closed
+    # by an edit: the touched document is then also reached as an include of itself
+    disk1 = {0: Variant(210, (1,), True), 1: Variant(211, (0,), False), 2: Variant(212, (0,), True)}
+    disk2 = {0: Variant(220, (0,), False), 1: Variant(221, (2,), True), 2: Variant(222, (1,), False)}
+    cyc = [(0, Variant(130, (0,), True)), (0, Variant(131, (1,), False)), (0, Variant(132, (0, 1), False)), (0, Variant(133, (), True)),
+           (1, Variant(140, (0,), True)), (1, Variant(141, (1,), False)), (1, Variant(142, (2,), False)), (1, Variant(143, (0,), False)),
+           (2, Variant(150, (0,), False)), (2, Variant(151, (1,), True)), (2, Variant(152, (), False))]
+    for disk in (disk0, disk1, disk2):
+        for n in (1, 2, 3):
+            for combo in itertools.product(cyc, repeat=n):
+                if n == 3 and rng.random() > (0.04 if quick else 0.5):
+                    continue
+                if n == 2 and quick and rng.random() > 0.5:
+                    continue
+                out.append((disk, list(combo)))
+        for _ in range(10 if quick else 1500):
+            out.append((disk, [rng.choice(cyc + atoms) for _ in range(rng.randrange(4, 8))]))
     # close / reopen histories: a document is edited k times, closed, opened again (its version counter restarts at 1) and
     # edited m more times, as root or as an included file, optionally followed by an edit of the root
     per_file = {0: roots, 1: mids + leaf[:1], 2: leaf[1:]}
